@@ -23,6 +23,12 @@
 #include "C06/get_path_msg_contract.h"
 
 /* only main() uses them; it is not part of this harness */
+#ifdef VERIF_REPLAY
+/* native replay only: main() is dead code here but its callees must exist
+ * for the link */
+#include "C06/main_env.h"
+#endif
+
 #define main rdsquashfs_main
 #include "bin/rdsquashfs/src/rdsquashfs.c"
 #undef main
